@@ -35,7 +35,8 @@ LETTERS = "abcdefgh"
 DEFAULT_CFG = dict(max_depth=3, max_fields=4, max_alts=3, classes=True, aggregates=True,
                    constraints=True, recursion=True, generics=False, typeddict=True,
                    namedtuple=True, initvar=True, skip=True, dep_req=True, class_aliaser=True,
-                   unsup=True, any=True, undefined=True, enums=True, fall_back=True, explicit_unique=True, lit_in_union=True)
+                   unsup=True, any=True, undefined=True, enums=True, fall_back=True, explicit_unique=True, lit_in_union=True,
+                   kinds=None, leaf_kinds=None, alias_pool=None, flavors=None, str_literals=False, enum_bases=None, agg_maps=True, init_false=True, min_fields=0, required_md=True, conforming_defaults=False)
 
 
 def pick(draw, xs):
@@ -107,7 +108,7 @@ class TypeGen:
     # -- leaves ------------------------------------------------------------------------
     def enum(self) -> dict:
         d = self.draw
-        base = pick(d, ["plain", "plain", "int", "str"])
+        base = pick(d, self.cfg["enum_bases"] or ["plain", "plain", "int", "str"])
         n = d(st.integers(1, 3))
         if base == "int" or (base == "plain" and chance(d, 0.5)):
             vals = d(st.lists(st.sampled_from([0, 1, 2, 3, -1]), min_size=n, max_size=n, unique=True))
@@ -149,8 +150,13 @@ class TypeGen:
         if not hashable:
             kinds += ["none"]
             kinds += ["any"] if self.cfg["any"] else []
+        if self.cfg["leaf_kinds"]:
+            kinds = [x for x in kinds if x in self.cfg["leaf_kinds"]] or ["int"]
         k = pick(d, kinds)
         if k == "lit":
+            if self.cfg["str_literals"]:
+                n = d(st.integers(1, 3))
+                return {"k": "lit", "values": d(st.lists(st.sampled_from(["a", "b", "ab", "x"]), min_size=n, max_size=n, unique=True))}
             return self.literal()
         if k == "enum":
             if self.prog["enums"] and chance(d, 0.3):
@@ -215,7 +221,10 @@ class TypeGen:
         if depth <= 0:
             return self.leaf(hashable)
         if hashable:
-            k = pick(d, ["leaf"] * 6 + ["tuple", "opt", "union", "vartuple", "frozenset"])
+            hk = ["leaf"] * 6 + ["tuple", "opt", "union", "vartuple", "frozenset"]
+            if self.cfg["kinds"]:
+                hk = [x for x in hk if x in self.cfg["kinds"]] or ["leaf"]
+            k = pick(d, hk)
         else:
             kinds = ["leaf"] * 5 + ["opt"] * 2 + ["union"] * 2 + ["list"] * 3 + ["set", "frozenset", "vartuple"] + \
                     ["tuple"] * 2 + ["map"] * 2 + ["anncont"]
@@ -223,6 +232,8 @@ class TypeGen:
                 kinds += ["cls"] * 5
             if self.cfg["recursion"] and self.stack:
                 kinds += ["rec"]
+            if self.cfg["kinds"]:
+                kinds = [x for x in kinds if x in self.cfg["kinds"]] or ["leaf"]
             k = pick(d, kinds)
         if k == "leaf":
             return self.leaf(hashable)
@@ -307,7 +318,7 @@ class TypeGen:
     def alias_name(self) -> str:
         d = self.draw
         n = self.uid()
-        return pick(d, ["al{}", "Al_{}", "$al{}", "al-{}", "a_l{}", "class{}"]).format(n)
+        return pick(d, self.cfg["alias_pool"] or ["al{}", "Al_{}", "$al{}", "al-{}", "a_l{}", "class{}"]).format(n)
 
     def new_class(self, depth: int, flavor: Optional[str] = None, for_flatten: bool = False) -> int:
         d = self.draw
@@ -317,6 +328,10 @@ class TypeGen:
             flavors += ["namedtuple"] * 2
         if cfg["typeddict"] and not for_flatten:
             flavors += ["typeddict"] * 2
+        if cfg["flavors"]:
+            flavors = [x for x in flavors if x in cfg["flavors"]] or ["dataclass"]
+            if flavor not in cfg["flavors"]:
+                flavor = None
         flavor = flavor or pick(d, flavors)
         idx = len(self.prog["classes"])
         self.prog["classes"].append(None)
@@ -325,7 +340,7 @@ class TypeGen:
         if for_flatten:
             self.flattened.add(idx)
         try:
-            nf = d(st.integers(0 if not for_flatten else 1, cfg["max_fields"]))
+            nf = d(st.integers(max(cfg["min_fields"], 0 if not for_flatten else 1), cfg["max_fields"]))
             fields = [self.field(cd, depth, flavor) for _ in range(nf)]
         finally:
             self.stack.pop()
@@ -380,9 +395,9 @@ class TypeGen:
             r = d(st.integers(0, 99))
             if r < 5 and cfg["classes"]:
                 agg = "flatten"
-            elif r < 9:
+            elif r < 9 and cfg["agg_maps"]:
                 agg = {"pattern": pick(d, PROP_PATTERNS)}
-            elif r < 12:
+            elif r < 12 and cfg["agg_maps"]:
                 agg = "additional"
         if agg == "flatten":
             f["t"] = {"k": "cls", "i": self.new_class(max(depth - 1, 0), flavor=pick(d, ["dataclass", "dataclass", "namedtuple"]), for_flatten=True)}
@@ -414,7 +429,7 @@ class TypeGen:
             has_default = False
         elif special < 13 and cfg["initvar"]:
             f["kind"] = "initvar"
-        elif special < 18:
+        elif special < 18 and cfg["init_false"]:
             f["kind"] = "init_false"
             has_default = True
         f["t"] = self.nolit(f["t"])
@@ -424,8 +439,15 @@ class TypeGen:
             f["default"] = {"c": value_for(d, self.prog, f["t"], fuel=1, stack=self.stack)}
             if f.get("kind") == "initvar" and not build._immutable(f["default"]["c"]):
                 del f["default"]  # InitVar fields cannot have a default factory
+        if cfg["conforming_defaults"] and f.get("default") is not None and f["default"]["c"][0] not in ("undef",):
+            try:
+                ok = M.conforms(self.prog, f["t"], f["default"]["c"]) or (f.get("none_as_undefined") and f["default"]["c"][0] == "none")
+            except Exception:
+                ok = True
+            if not ok:
+                del f["default"]
         if f.get("default") is not None:
-            if chance(d, 0.1) and f.get("kind") != "init_false" and agg is None:
+            if cfg["required_md"] and chance(d, 0.1) and f.get("kind") != "init_false" and agg is None:
                 f["required"] = True  # (meaningless on aggregate fields: they are never "absent")
             elif cfg["fall_back"] and chance(d, 0.15):
                 f["fall_back"] = True
